@@ -112,9 +112,16 @@ func lastLines(s string, n int) string {
 	return strings.Join(keep, " | ")
 }
 
+// benignRaces lists the shipped workloads whose kernels are not race-free in the sense of the
+// property: several work-items may test and set the same flag, so which of them executes the
+// guarded instructions depends on the interleaving (shoc/bfs: "if the neighbour is unvisited,
+// mark it" on shared cost and flag arrays), while the result is the same for every interleaving.
+// For them only the data read back is compared.
+var benignRaces = map[string]bool{"bfs": true}
+
 // diffDigests returns "" when the two runs executed the same instructions and delivered the same data.
-func diffDigests(e, t *benchcase.Digest) string {
-	if e.WavesHash != t.WavesHash || e.Insts != t.Insts || e.NumWaves != t.NumWaves {
+func diffDigests(e, t *benchcase.Digest, compareInsts bool) string {
+	if compareInsts && (e.WavesHash != t.WavesHash || e.Insts != t.Insts || e.NumWaves != t.NumWaves) {
 		msg := fmt.Sprintf("executed-instruction sequences differ: emulation %d instructions in %d wavefronts, timing %d in %d", e.Insts, e.NumWaves, t.Insts, t.NumWaves)
 		tw := map[benchcase.WaveID]benchcase.WaveDigest{}
 		for _, w := range t.Waves {
@@ -160,6 +167,9 @@ func RunSCase(sc SCase) (res stats.Result) {
 	gpu := c.GPUType
 	if gpu == "" {
 		gpu = "r9nano"
+	}
+	if benignRaces[c.Workload] {
+		res.Labels = append(res.Labels, "benign-races-data-compared-only")
 	}
 	res.Labels = append(res.Labels, "shipped", "workload:"+c.Workload, "arch:"+c.Arch, "gpu:"+gpu, fmt.Sprintf("gpus:%d", len(c.GPUs)))
 	if c.Unified {
@@ -213,7 +223,7 @@ func RunSCase(sc SCase) (res stats.Result) {
 		}
 		x := runDigest(c, dir, "timing-l1-invalidated", "BENCHRUN_INVALIDATE_L1=1")
 		switch {
-		case x.o.Harness == "" && !x.o.TimedOut && x.d != nil && x.passed == e.passed && diffDigests(e.d, x.d) == "":
+		case x.o.Harness == "" && !x.o.TimedOut && x.d != nil && x.passed == e.passed && diffDigests(e.d, x.d, !benignRaces[c.Workload]) == "":
 			res.KnownID = "C02-K2"
 			res.Labels = append(res.Labels, "k2-confirmed-by-l1-invalidation")
 		case x.o.TimedOut || x.d == nil:
@@ -233,7 +243,7 @@ func RunSCase(sc SCase) (res stats.Result) {
 		}
 		res.Violation = fmt.Sprintf("%s: %s fails before completing any device-to-host copy (exit %d %s: %s) while %s gets further", describeS(c), which, r.o.Exit, r.o.Signal, lastLines(r.o.Stderr, 3), other)
 	default:
-		if d := diffDigests(e.d, tm.d); d != "" {
+		if d := diffDigests(e.d, tm.d, !benignRaces[c.Workload]); d != "" {
 			res.Violation = fmt.Sprintf("%s: %s (the workload's own verification: emulation passed=%v, timing passed=%v)", describeS(c), d, e.passed, tm.passed)
 			known()
 		} else if e.passed != tm.passed {
